@@ -1,3 +1,4 @@
+pub mod bigdev;
 pub mod c06;
 pub mod c09;
 pub mod c15;
@@ -14,7 +15,26 @@ use crate::env::Tier;
 
 pub fn dispatch(id: &str, tier: Tier, seed: u64, replay: Option<&str>) -> i32 {
     match id {
-        "C01" | "C10" => seqprops::run(id, tier, seed, replay),
+        "C01" => seqprops::run(id, tier, seed, replay),
+        "C10" => {
+            if let Some(path) = replay {
+                let text = std::fs::read_to_string(path).unwrap_or_default();
+                if text.contains("\"big_device\"") {
+                    return bigdev::replay(path);
+                }
+                return seqprops::run(id, tier, seed, replay);
+            }
+            let code = seqprops::run(id, tier, seed, None);
+            let (bcode, summary) = bigdev::campaign("C10", tier, seed);
+            fold_into_evidence("C10", "devices_beyond_4gib", summary, "cases", bcode);
+            code.max(bcode)
+        }
+        "C10-BIG" => {
+            // development entry: the big-device stage alone (writes no evidence)
+            let (code, summary) = bigdev::campaign("C10", tier, seed);
+            println!("{}", serde_json::to_string_pretty(&summary).unwrap_or_default());
+            code
+        }
         "C12" => {
             if let Some(path) = replay {
                 let text = std::fs::read_to_string(path).unwrap_or_default();
